@@ -63,4 +63,16 @@ ValidPath(k) == k \in {"Str", "PathLike", "Unicode"}
 (* map(): one target per item; names template_<i> / <string>_<i> / f(i)    *)
 MapNames(mode, base, cnt) == [i \in 1..cnt |-> IF mode = "func" THEN "custom" \o ToString(i - 1)
                                              ELSE base \o "_" \o ToString(i - 1)]
+
+(* The workflow as a registry of names.  A definition operation brings a sequence of names  *)
+(* (one for target()/target_from_template(), one per item for map()); it is accepted iff the *)
+(* names are pairwise distinct and none is registered yet, and then registers exactly them.  *)
+(* A rejected operation raises when the target is defined; what a rejected map() has already *)
+(* registered is not specified, so a scenario is judged up to its first rejection.           *)
+Distinct(ns)      == \A a, b \in DOMAIN ns : a # b => ns[a] # ns[b]
+RECURSIVE RegAfter(_, _)
+RegAfter(ops, k)  == IF k = 0 THEN {} ELSE RegAfter(ops, k - 1) \cup {ops[k].names[j] : j \in DOMAIN ops[k].names}
+OpAccepted(ops, k) == Distinct(ops[k].names) /\ {ops[k].names[j] : j \in DOMAIN ops[k].names} \cap RegAfter(ops, k - 1) = {}
+FirstRejected(ops) == LET R == {k \in DOMAIN ops : ~OpAccepted(ops, k)} IN
+                      IF R = {} THEN Len(ops) + 1 ELSE CHOOSE k \in R : \A m \in R : k <= m
 =============================================================================
